@@ -189,6 +189,8 @@ def text_stream(rng, n_valid, n_malformed):
             valid.append(gen.render(g, rng if rng.random() < 0.5 else None))
             continue
         g = gen.random_grammar(rng, names=rng.choice(["plain", "adversarial"]), payload="mixed", derive=rng.random() < 0.5)
+        if len(valid) % 5 == 2:
+            g = (gen.near_miss(g, rng) or (g, ""))[0]
         for it in g:
             if it["kind"] != "start" and rng.random() < 0.4:
                 it["attrs"] = it.get("attrs", []) + ["#[" + rng.choice(gen.ATTR_BODIES[:7]) + "]"]
@@ -932,6 +934,12 @@ def run_C01(rep, tier, rng):
     lines = kv.run_impl("stages", corr.stage_requests([r["text"] for r in recs]))
     hstats = {}
     validated = validate_automata(rep, [(r["label"], r["text"], r["G"], l) for r, l in zip(recs, lines) if l.startswith("(stages")], halts=hstats)
+    # the validator and the termination certificate also on the exhaustive small scope (no compilation): every
+    # third grammar in the thorough tier, every 150th in the quick tier
+    hsmall = {}
+    small = small_scope(3 if tier == "thorough" else 150)
+    slines = kv.run_impl("stages", corr.stage_requests([t for _, _, t, _ in small]))
+    validated_small = validate_automata(rep, [(lab, t, G, l) for (lab, _, t, G), l in zip(small, slines) if l.startswith("(stages")], halts=hsmall)
     ev, acc, dis = 0, 0, []
     for r in recs:
         G = r["G"]
@@ -962,7 +970,8 @@ def run_C01(rep, tier, rng):
             "rule": "accepted grammars from the C04 pool; per grammar all token strings up to length 3 (quick) / 5 (thorough) plus random sentences and their single-token mutations; the emitted module is compiled with rustc and run; verdict compared with an Earley recogniser on the declared productions (oracle) and with the model driver; non-trivial = at least 2 tokens",
             "samples": sample([{"source": r["text"], "tokens": r["strings"][-1], "impl": r["impl"][-1]} for r in recs[20:]]),
             "grammars_compiled": len(recs), "automata_validated_by_validB": validated, "sentences": acc, "model_disagreements": len(dis),
-            "termination_certificates": hstats}
+            "termination_certificates": hstats,
+            "small_scope": {"grammars": len(small), "automata_validated_by_validB": validated_small, "termination_certificates": hsmall}}
 
 
 def run_C02(rep, tier, rng):
@@ -1744,6 +1753,11 @@ def run_C10(rep, tier, rng):
             r = gen.multi_violation(base, rng)
             if r:
                 items, labels = r[0], [r[1]]
+        if len(cases) % 6 == 2:
+            # well-formed, but nearly in violation of a uniqueness rule (keys that coincide under a too coarse key)
+            r = gen.near_miss(base, rng)
+            if r:
+                items, labels = r[0], []
         cases.append((items, labels))
     texts = [gen.render(it, rng if rng.random() < 0.3 else None) for it, _ in cases]
     pairs, dis = compare_stage_runs(rep, corpus("C10") + texts, "C10", keys={"ast", "file"} | set(VALIDATION_ERRS))
